@@ -4,6 +4,7 @@
        grid_sample @1079-1131, grid_resize @1010-1043; independent ITK specification.
 -/
 import Deepali.Model.TorchPrim
+import Deepali.Model.Itk
 namespace Deepali
 
 section
@@ -18,10 +19,6 @@ def coordAt (n : Nat) (ac : Bool) (k : α) : α :=
   else
     let spacing : α := ((2 : Nat) : α) / ((n : Nat) : α)
     (-((1 : Nat) : α) + ((1 : Nat) : α) / ((2 : Nat) : α) * spacing) + k * spacing
-
-/-- ITK: continuous index → physical point, `O + D·(S ⊙ i)`. -/
-def Itk.idxToPhys {d : Nat} (O S : Vec d α) (D : Mat d α) (i : Vec d α) : Vec d α :=
-  O.add (D.mulVec (S.mul i))
 
 /-- ITK: physical point → continuous index for an orthonormal direction,
     `diag(1/S)·Dᵀ·(x − O)`. -/
